@@ -355,7 +355,15 @@ qb_rb_space_free(struct qb_ringbuffer_s * rb)
 	} else if (write_size < read_size) {
 		space_free = (read_size - write_size) - 1;
 	} else {
-		if (rb->notifier.q_len_fn && rb->notifier.q_len_fn(rb->notifier.instance) > 0) {
+		/*
+		 * Equal indices mean empty or full; the chunk count tells
+		 * which. Not in overwrite mode: there the writer drops old
+		 * chunks itself without taking their count back, and it never
+		 * fills the ring (it keeps the margin free), so equal indices
+		 * can only mean that it has just emptied the ring.
+		 */
+		if (!(rb->flags & QB_RB_FLAG_OVERWRITE) &&
+		    rb->notifier.q_len_fn && rb->notifier.q_len_fn(rb->notifier.instance) > 0) {
 			space_free = 0;
 		} else {
 			space_free = rb->shared_hdr->word_size;
